@@ -39,7 +39,8 @@ var listKinds = []listKind{
 		Wrap: func(i int, b string) string { return "\t_ = " + b + "\n" }},
 	{Name: "composite-keyed", PatKind: "expr", Ctx: "kv", Sep: ",", XKind: "expression",
 		Head: func(int) string { return "Tgt{" }, Tail: []string{"}"},
-		Elem: map[byte]string{'a': "Ka: 1", 'b': "Kb: 2", 'c': "Kc: 3", 'z': "Kz: 9", 'p': "Kp: 7", 'q': "Kq: 8", 'x': "«x»", 'y': "«y»"},
+		// one key, different values: the metavariables stand for values (a keyed element is not an expression)
+		Elem: map[byte]string{'a': "K: 1", 'b': "K: 2", 'c': "K: 3", 'z': "K: 9", 'p': "K: 7", 'q': "K: 8", 'x': "K: «x»", 'y': "K: «y»"},
 		Wrap: func(i int, b string) string { return "\t_ = " + b + "\n" }},
 	{Name: "params-unnamed", PatKind: "decl", Ctx: "params", Sep: ",", XKind: "expression",
 		Head: func(i int) string { return fmt.Sprintf("func «f»(") }, Tail: []string{") {", "}"},
